@@ -31,6 +31,12 @@ EXTENDS Naturals, Sequences, FiniteSets, TLC
 \* seeded-change style variant kept so that TLC demonstrably refutes it (TlsRoute_keymerge.cfg).
 CONSTANT KeyMergesWsIntoHttp
 
+\* TRUE: a `client::Builder` setter that reconstructs the builder (`Builder { .. }`: with_tcp, with_transport,
+\* with_auto_http, with_protocol, with_redirect_policy, without_redirects, with_standard_redirect_policy, with_body,
+\* layer) forgets the TLS configuration set before it. Not the behaviour of the pinned tree: a seeded-change style
+\* variant that TLC must refute (TlsRoute_setterdrops.cfg).
+CONSTANT SetterDropsTls
+
 Vias     == {"transport", "client"}      \* TlsTransport called directly | Client built by client::Builder
 Wrappers == {"tls", "plain"}             \* TlsTransport with / without a TLS configuration
 Schemes  == {"http", "https", "ws", "wss", "other"}
@@ -41,6 +47,24 @@ Certs    == {"match", "mismatch", "untrusted"}
 CAlpns   == {"none", "both", "h2"}       \* client offer: nothing | h2,http/1.1 | h2
 SAlpns   == {"none", "h1", "both"}       \* server support: nothing | http/1.1 | h2,http/1.1
 Faults   == {"none", "peerCloses", "peerPlaintext", "truncated"}
+\* WIRING: how the TLS state of the client under test was configured. "direct": TlsTransport built by hand
+\* (via = "transport"). For via = "client" the call order on client::Builder; `TLS` stands for with_tls(config)
+\* when wrapper = "tls" and without_tls() when wrapper = "plain" -- the state at build time must be the last one set,
+\* whatever other setters are called in between.
+ClientWirings == {"transport-then-tls",        \* .with_protocol.with_transport.with_default_pool.TLS
+                  "tls-then-transport",        \* .with_protocol.with_default_pool.TLS.with_transport
+                  "tls-then-protocol",         \* .with_transport.with_default_pool.TLS.with_protocol | with_auto_http
+                  "tls-then-tcp-transport",    \* .TLS.with_tcp.with_transport
+                  "tls-then-redirect",         \* .TLS.with_redirect_policy | without_redirects | with_standard_redirect_policy
+                  "tls-then-body-layer",       \* .TLS.with_body.layer
+                  "tls-then-mutators",         \* .TLS.with_pool.with_timeout.with_user_agent.without_timeout (no rebuild)
+                  "default-then-transport",    \* Client::build_tcp_http() (default TLS: platform roots) [.without_tls] .with_transport
+                  "tls-reset",                 \* the opposite state first, then TLS (no rebuild)
+                  "accessor-then-transport"}   \* *builder.tls() = Some(config) | None, then .with_transport
+Wirings == {"direct"} \cup ClientWirings
+\* wirings in which a reconstructing setter runs after the TLS state was set
+RebuildAfterTls == {"tls-then-transport", "tls-then-protocol", "tls-then-tcp-transport", "tls-then-redirect",
+                    "tls-then-body-layer", "default-then-transport", "accessor-then-transport"}
 \* HISTORY: the request under test is issued on a pooled client after a previous request to the SAME authority
 Prevs    == {"none", "http", "ws", "https", "wss"}   \* scheme of the previous request ("none": fresh client)
 Hists    == {"idle", "inflight"}   \* previous request completed, its HTTP/1.1 connection idle in the pool |
@@ -60,15 +84,21 @@ Must(x)   == TlsOn(x) /\ Secure(x)       \* the requests the first sentence of C
 \* dimensions that only matter when a TLS handshake is attempted are pinned otherwise; a history exists only on
 \* the pooled stack with a TLS configuration, a cooperative peer, and the protocol the history needs
 \* (idle: HTTP/1.1, no ALPN; in flight: HTTP/2 by ALPN on TLS and by prior knowledge on plaintext)
-Canonical(x) ==
+Pinned(x) == x.cert = "match" /\ x.calpn = "both" /\ x.salpn = "both" /\ x.fault = "none"
+CanonicalHist(x) ==
   IF x.prev = "none"
-    THEN x.hist = "idle" /\ (Must(x) \/ (x.cert = "match" /\ x.calpn = "both" /\ x.salpn = "both" /\ x.fault = "none"))
+    THEN x.hist = "idle" /\ (Must(x) \/ Pinned(x))
     ELSE /\ x.via = "client" /\ x.wrapper = "tls" /\ x.host # "odd" /\ x.cert = "match" /\ x.fault = "none"
          /\ (x.hist = "idle" => x.calpn = "none" /\ x.salpn = "none")
          /\ (x.hist = "inflight" => x.calpn = "both" /\ x.salpn = "both")
+Canonical(x) ==
+  /\ (x.via = "transport") = (x.wiring = "direct")
+  /\ (x.wiring \notin {"direct", "transport-then-tls"} => x.prev = "none" /\ Pinned(x))   \* wirings x cooperative peer
+  /\ CanonicalHist(x)
 
 Vectors == {x \in [via : Vias, wrapper : Wrappers, scheme : Schemes, scase : SCases, host : Hosts, port : Ports,
-                   cert : Certs, calpn : CAlpns, salpn : SAlpns, fault : Faults, prev : Prevs, hist : Hists] :
+                   cert : Certs, calpn : CAlpns, salpn : SAlpns, fault : Faults, prev : Prevs, hist : Hists,
+                   wiring : Wirings] :
               Canonical(x)}
 
 \* An observation: what the caller got and what the peer saw, per vector.
@@ -117,16 +147,21 @@ SchemeStrIsSecure ==
   \/ v.scheme = "https"
   \/ v.scheme = "wss" /\ (v.scase = "lower" \/ ~asBuilt)
 
+\* build_service: transport.with_optional_tls(self.tls): the braid is Tls iff the builder still holds a configuration
+TlsAtBuild == v.wrapper = "tls" /\ ~(SetterDropsTls /\ v.wiring \in RebuildAfterTls)
+\* the default builder's configuration trusts the platform roots, not the test CA, and carries no recording verifier
+ClientTrusts == v.wiring # "default-then-transport"
+
 CallPlainBraid ==                       \* InnerBraid::Plain(inner) => inner.connect(parts)
-  /\ pc = "call" /\ v.wrapper = "plain"
+  /\ pc = "call" /\ ~TlsAtBuild
   /\ pc' = "connectPlain" /\ UNCHANGED <<v, asBuilt, out>>
 
 CallTlsBraidSecure ==                   \* InnerBraid::Tls(inner) if use_tls => inner.call(parts)
-  /\ pc = "call" /\ v.wrapper = "tls" /\ SchemeStrIsSecure
+  /\ pc = "call" /\ TlsAtBuild /\ SchemeStrIsSecure
   /\ pc' = "wrapperCall" /\ UNCHANGED <<v, asBuilt, out>>
 
 CallTlsBraidOther ==                    \* InnerBraid::Tls(inner) => inner.transport_mut().connect(parts)
-  /\ pc = "call" /\ v.wrapper = "tls" /\ ~SchemeStrIsSecure
+  /\ pc = "call" /\ TlsAtBuild /\ ~SchemeStrIsSecure
   /\ pc' = "connectPlain" /\ UNCHANGED <<v, asBuilt, out>>
 
 \* ---- plain route: Stream::new(io) (TlsBraid::NoTls), the caller writes to it -----------------
@@ -175,12 +210,12 @@ HandshakeAlpnRefused ==
   /\ pc' = "done" /\ UNCHANGED <<v, asBuilt>>
 
 HandshakeCertRejected ==                \* verifier asked for the host, says no
-  /\ pc = "handshake" /\ v.fault = "none" /\ ~AlpnDisjoint /\ v.cert # "match"
-  /\ out' = [Hello EXCEPT !.result = "error", !.verifies = {"host"}]
+  /\ pc = "handshake" /\ v.fault = "none" /\ ~AlpnDisjoint /\ (v.cert # "match" \/ ~ClientTrusts)
+  /\ out' = [Hello EXCEPT !.result = "error", !.verifies = IF ClientTrusts THEN {"host"} ELSE {}]
   /\ pc' = "done" /\ UNCHANGED <<v, asBuilt>>
 
 HandshakeOk ==                          \* Poll::Ready(Ok(stream)) only now: handshake complete
-  /\ pc = "handshake" /\ v.fault = "none" /\ ~AlpnDisjoint /\ v.cert = "match"
+  /\ pc = "handshake" /\ v.fault = "none" /\ ~AlpnDisjoint /\ v.cert = "match" /\ ClientTrusts
   /\ out' = [Hello EXCEPT !.result = "ok", !.verifies = {"host"}, !.carrier = "tls", !.clientTls = "yes", !.peerHs = TRUE]
   /\ pc' = "done" /\ UNCHANGED <<v, asBuilt>>
 
